@@ -15,6 +15,7 @@ increase (effective = `r` attribute if present, else previous + 1).
 import XlModel.Lemmas.Readers
 import XlModel.Lemmas.ReadersLoad
 import XlModel.ReadersState
+import XlModel.ReadersRender
 import XlModel.Lemmas.Grid4
 
 deriving instance DecidableEq for Except
@@ -180,6 +181,70 @@ theorem searchSheet_finds_exactly (s : Sheet) (h : WF s) (hg : InGrid 0 s) (need
     (hne : needle ≠ []) (c r : Nat) :
     (∃ l, searchSheet s needle = .ok l ∧ ((c, r) ∈ l ↔ value s c r = needle)) :=
   ⟨hits needle 0 s, searchSheet_spec s h hg needle, mem_hits_iff needle hne s 0 c r h⟩
+
+/-! ## Typed cells: what `val` is -/
+
+/-- every reader renders a cell through the one function `getValueFrom`: its callers in the
+source are exactly the four read paths (`GetCellValue`'s closure, `Rows.rowXMLHandler`,
+`Cols.rowXMLHandler`, `searchSheet`) plus two writers that read a value back. -/
+theorem render_call_sites : Facts.C04.getValueFromCallers =
+    ["Cols.rowXMLHandler", "File.GetCellValue", "File.SetCellFormula", "File.searchSheet",
+     "Rows.rowXMLHandler", "StreamWriter.getRowValues"] := by decide
+
+/-- `getValueFrom` on an unstyled cell, by cell type: booleans, dates, errors and numbers show
+their stored text in raw mode, a boolean shows TRUE/FALSE in formatted mode, a formula string is
+`bstrUnmarshal` of its stored text, an inline string is `xlsxSI.String()` of its `<is>`, a shared
+string is the item its index names and its own text when the index is outside the table. -/
+theorem render_by_type (sst : List SI) (raw : Bool) (c : TCell) :
+    (c.t = .d ∨ c.t = .e ∨ c.t = .n → render sst raw c = c.v) ∧
+    (c.t = .b → render sst true c = c.v) ∧
+    (c.t = .b → c.v = ['1'] → render sst false c = "TRUE".toList) ∧
+    (c.t = .b → c.v = ['0'] → render sst false c = "FALSE".toList) ∧
+    (c.t = .str → render sst raw c = Bstr.unmarshal c.v) ∧
+    (c.t = .inlineStr → ∀ x, c.is = some x → render sst raw c = x.str) ∧
+    (c.t = .s → ∀ (i : Nat) (x : SI), c.v ≠ [] → sIndex c.v = (i : Int) → sst[i]? = some x →
+      render sst raw c = x.str) ∧
+    (c.t = .s → ∀ (i : Nat), sIndex c.v = (i : Int) → sst.length ≤ i → render sst raw c = c.v) := by
+  refine ⟨?_, ?_, ?_, ?_, ?_, ?_, ?_, ?_⟩
+  · rintro (h | h | h) <;> simp [render, h]
+  · intro h; simp [render, h]
+  · intro h hv; simp [render, h, hv]
+  · intro h hv; simp [render, h, hv]
+  · intro h; simp [render, h]
+  · intro h x hx; simp [render, h, hx]
+  · intro h i x hv hi hx
+    have hlt : i < sst.length := by
+      rcases Nat.lt_or_ge i sst.length with h1 | h1
+      · exact h1
+      · rw [List.getElem?_eq_none h1] at hx; cases hx
+    have h0 : (0 : Int) ≤ (i : Int) := Int.natCast_nonneg i
+    have hget : sst[i] = x := by
+      have := List.getElem?_eq_getElem hlt
+      rw [this] at hx; exact Option.some.inj hx
+    simp [render, h, hv, hi, hlt, h0, hget]
+  · intro h i hi hle
+    by_cases hv : c.v = []
+    · simp [render, h, hv]
+    · have : ¬ i < sst.length := by omega
+      simp [render, h, hv, hi, this]
+
+/-- clause "the value of a cell is the same whichever read interface is used", for typed cells:
+with every cell rendered by `render` (shared, inline, formula strings, booleans, errors, dates,
+numbers; raw or formatted), `GetRows`, `GetCols`, literal `SearchSheet` and — on the cached form —
+`GetCellValue` all show the rendered text of the cell at that position. -/
+theorem typed_readers_agree (sst : List SI) (raw : Bool) (ts : List TRow)
+    (h : WF (toSheet sst raw ts)) (ha : RowAttrsOK (toSheet sst raw ts))
+    (hc : Consistent 0 (toSheet sst raw ts)) (c r : Nat) (h1 : 1 ≤ c) (h2 : 1 ≤ r) :
+    cellOf (getRows (toSheet sst raw ts)) c r = value (toSheet sst raw ts) c r ∧
+    cellOfCols (getCols (toSheet sst raw ts)) c r = value (toSheet sst raw ts) c r ∧
+    (Explicit (toSheet sst raw ts) →
+      getCellValue (toSheet sst raw ts) c r = value (toSheet sst raw ts) c r) ∧
+    (InGrid 0 (toSheet sst raw ts) → ∀ needle, needle ≠ [] →
+      ∃ l, searchSheet (toSheet sst raw ts) needle = .ok l ∧
+        ((c, r) ∈ l ↔ value (toSheet sst raw ts) c r = needle)) :=
+  ⟨readers_agree _ h ha c r h1 h2, getCols_agrees _ h hc c r h1 h2,
+    fun he => getCellValue_agrees _ h he c r,
+    fun hg needle hne => searchSheet_finds_exactly _ h hg needle hne c r⟩
 
 /-! ## Reading never changes the workbook (the modelled state-passing getters) -/
 
